@@ -58,7 +58,8 @@ FASTOR_INLINE void assign ##ASSIGN_TYPE (AbstractTensor<Derived,DIM> &dst, const
         assign ##OP_ASSIGN_TYPE (dst.self(), src.rhs().self());\
     }\
     else{\
-        const Derived tmp(dst.self());\
+        using rhs_result_type = typename remove_cv_ref_t<TRhs>::result_type;\
+        const rhs_result_type tmp(src.rhs().self());\
         assign ##ASSIGN_TYPE (dst.self(), src.lhs().self());\
         assign ##OP_ASSIGN_TYPE (dst.self(), tmp);\
     }\
@@ -71,8 +72,9 @@ FASTOR_INLINE void assign ##ASSIGN_TYPE (AbstractTensor<Derived,DIM> &dst, const
 template<typename Derived, size_t DIM, typename TLhs, typename TRhs, size_t OtherDIM,\
     enable_if_t_<is_primitive_v_<TLhs> && !is_primitive_v_<TRhs> && requires_evaluation_v<TRhs>, bool> = false>\
 FASTOR_INLINE void assign ##ASSIGN_TYPE (AbstractTensor<Derived,DIM> &dst, const Binary ##NAME ## Op<TLhs, TRhs, OtherDIM> &src) {\
-    assign ##ASSIGN_TYPE (dst.self(), src.lhs());\
+    /* the right operand first: it may read dst */\
     assign  ##OP_ASSIGN_TYPE (dst.self(), src.rhs().self());\
+    assign ##ASSIGN_TYPE (dst.self(), src.lhs());\
 }\
 template<typename Derived, size_t DIM, typename TLhs, typename TRhs, size_t OtherDIM,\
     enable_if_t_<!is_primitive_v_<TLhs> && is_primitive_v_<TRhs> && !requires_evaluation_v<TLhs>, bool> = false>\
